@@ -214,6 +214,11 @@ def C07_4(ctx, facts):
     shp_cx = {c.bb for c in shp if cxl is not None and any(any(r.kind == "arg" and getattr(r, "index", None) == cxl for r in f.roots(a, through_calls=False)) for a in c.args)}
     pend_edge = L_poll(f, False, shp_cx)
     npend = 0
+    # a slot (`Option<CloseFuture>`) emptied on the Ready edge answers Pending from its empty arm as well - that arm is only
+    # reachable after graceful_shutdown() was requested in an earlier call (the "fused" rule above decides where it is emptied);
+    # for that shape the rule asks for one Pending behind the signal's Pending edge, not all of them
+    slot_shape = "Option<" in sty and "CloseFuture" in sty
+    results = []
     for (b, i, s_) in f.aggregates("Poll", "Pending"):
         npend += 1
         ok, w = False, None
@@ -223,10 +228,17 @@ def C07_4(ctx, facts):
                 ok2 = f.must_pass(f.entry if hasattr(f, "entry") else 0, [cb], gs0)[0]
             ok = ok or ok2
             w = w or w2
+        results.append(ok)
+        if slot_shape:
+            continue
         ctx.check(ok, "GracefulConnectionDriver::poll|pending-hears-signal",
                   "the driver answers Pending only behind the Pending edge of a poll of its shutdown future that received the task context (the signal wakes a resting connection)",
                   "the driver can answer Pending without the shutdown signal having registered the task's waker: an idle connection is never told to shut down",
                   f.where(b), f.path_desc(w))
+    if slot_shape:
+        ctx.check(any(results), "GracefulConnectionDriver::poll|pending-hears-signal",
+                  "a Pending answer of the driver sits behind the Pending edge of a poll of the shutdown slot's future that received the task context",
+                  "no Pending answer of the driver is behind a poll of the shutdown future: an idle connection is never told to shut down", f.where())
     ctx.floor("GracefulConnectionDriver::poll|pending-sites", npend, 1, "Poll::Pending constructions in the driver's poll")
     gs = [c for c in f.calls() if norm(c.decl or c.name).endswith("::graceful_shutdown")]
     fin = [c for c in f.calls("server::CloseSender::send")]
